@@ -151,25 +151,50 @@ class Mirror:
                 out.append(([k] + p, l))
         return out
 
-    def models(self, o, cls, izd):
-        """models_with_type(cls, include_zero_dimension=izd): Models found with ignore_children=False"""
+    def model_tuples(self, o, cls, izd):
+        """model_tuples_with_type(cls, include_zero_dimension=izd): (attribute name, Model) found with ignore_children=False"""
         out = []
 
-        def rec(v, vis):
+        def rec(v, vis, name):
             if v[0] != "r":
                 return True
             if v[1] in vis:
                 return False
             ob = self.objs[v[1]]
             if ob.kind == "model":
-                out.append(v[1])
-            for _, cv in ob.attrs:
-                if not rec(cv, vis + (v[1],)):
+                out.append((name, v[1]))
+            for k, cv in ob.attrs:
+                if not rec(cv, vis + (v[1],), k):
                     break
             return True
-        rec(["r", o], ())
-        return [[[], ["r", c]] for c in out
+        rec(["r", o], (), "")
+        return [[[name], ["r", c]] for name, c in out
                 if (cls is None or self.objs[c].cls == cls) and (izd or self.count(c) > 0)]
+
+    def models(self, o, cls, izd):
+        """models_with_type(cls, include_zero_dimension=izd)"""
+        return [[[], l] for _, l in self.model_tuples(o, cls, izd)]
+
+    def raw(self, o, q):
+        """the value one frozen_cache function returns, in its own order"""
+        what = q[1]
+        if what == "pit":
+            return [[p, l] for p, l in self.walk(["r", o], q[2])]
+        if what == "attr":
+            return [[[p[-1]] if p else [""], l] for p, l in self.walk(["r", o], "prior")]
+        if what == "unique":
+            return [[p, l] for p, l in self.unique(o)]
+        if what == "direct":
+            want = q[2]
+            out = []
+            for k, v in self.objs[o].attrs:
+                if (want == "prior" and v[0] == "p") or (want == "float" and v[0] == "c") or \
+                        (want == "tuple" and v[0] == "r" and self.objs[v[1]].kind == "tuple") or (want == "pm" and self.is_pm(v)):
+                    out.append([[k], v])
+            return out
+        if what == "mtt":
+            return self.model_tuples(o, q[2], q[3])
+        raise ValueError(q)
 
     def unique(self, o):
         d = {}
@@ -308,6 +333,8 @@ class Mirror:
                 return {"ok": self.unit(o, q[1])}
             if k == "allpaths":
                 return {"ok": self.allpaths(o)}
+            if k == "raw":
+                return {"ok": self.raw(o, q)}
         except Mirror.Raise as e:
             return {"exc": str(e)}
         raise ValueError(q)
@@ -531,6 +558,10 @@ class Gen:
         self.case = {"classes": self.classes, "class_names": shape["class_names"], "bases": shape["bases"], "priors": pri, "ops": []}
         self.m = Mirror(self.case)
         self.next_prior = 0
+        # prior ids are NOT handed out in the order in which attributes are filled: id order differs from traversal order
+        self.order = list(range(NPRIORS))
+        if rng.random() < 0.8:
+            rng.shuffle(self.order)
 
     def emit(self, op):
         self.case["ops"].append(op)
@@ -540,8 +571,8 @@ class Gen:
         r = self.rng
         if self.next_prior < NPRIORS and (self.next_prior == 0 or r.random() < 0.75):
             self.next_prior += 1
-            return ["p", self.next_prior - 1]
-        return ["p", r.randrange(max(1, self.next_prior))]
+            return ["p", self.order[self.next_prior - 1]]
+        return ["p", self.order[r.randrange(max(1, self.next_prior))]]
 
     def leafval(self):
         return self.prior() if self.rng.random() < 0.7 else ["c", self.rng.randint(1, 9)]
@@ -620,7 +651,10 @@ class Gen:
         return vec
 
     def query(self, o):
-        k = self.rng.choice(["count", "count", "paths", "ordered", "instance", "instance", "info", "models", "unit", "allpaths"])
+        k = self.rng.choice(["count", "count", "paths", "ordered", "instance", "instance", "info", "models", "unit", "allpaths",
+                             "raw", "raw", "raw"])
+        if k == "raw":
+            return ["query", o, self.raw_query()]
         if k in ("instance", "unit") and self.m.loops(o) and self.rng.random() < 0.8:
             k = "count"
         if k == "unit":
@@ -634,6 +668,18 @@ class Gen:
             return ["query", o, [k, self.rng.choice([None, None] + [c for c in range(len(self.classes)) if not self.m.has_subclass(c)]),
                                  self.rng.random() < 0.4]]
         return ["query", o, [k, self.vector(o)] if k == "instance" else [k]]
+
+    def raw_query(self):
+        r = self.rng
+        what = r.choice(["pit", "pit", "pit", "attr", "unique", "direct", "mtt"])
+        if what == "pit":
+            return ["raw", "pit", r.choice(["prior", "prior", "prior", "tuple", "param"])]
+        if what == "direct":
+            return ["raw", "direct", r.choice(["prior", "float", "tuple", "pm"])]
+        if what == "mtt":
+            return ["raw", "mtt", r.choice([None, None] + [c for c in range(len(self.classes)) if not self.m.has_subclass(c)]),
+                    r.random() < 0.4]
+        return ["raw", what]
 
     def allowed_mod(self, t):
         """clean histories never modify anything that sits under a frozen object"""
@@ -683,7 +729,7 @@ class Gen:
                 else:
                     v = self.leafval()
                     if self.ids and self.next_prior > 1 and r.random() < 0.6:
-                        v = ["p", r.randrange(self.next_prior)]      # a prior other models already hold
+                        v = ["p", self.order[r.randrange(self.next_prior)]]      # a prior other models already hold
                 return ["setitem", o, name, v]
             if r.random() < 0.03 and ob.kind != "tuple":
                 return ["set", o, name, ["r", o]]              # self-reference: exercises the recursion guard
@@ -898,6 +944,22 @@ def scenario_cases():
                 vec = list(range(1, len(table[c]) + 1))
                 ops += ask(objs[c], vec) + [["freeze", objs[c]]] + ask(objs[c], vec)
             out.append(base(ops, classes=table, names=["P", "P", "P", "P"]))
+    # every answer after every other query: prior ids out of traversal order, a shared prior, a tuple prior; all queries
+    # (incl. the raw return value of each frozen_cache function) unfrozen, frozen (filling the caches), again in reverse
+    # and rotated orders (answered from the caches after every other query has run), on a child, on a copy, after unfreeze
+    def allq(o, vec, units):
+        return [["query", o, q] for q in (
+            ["count"], ["raw", "pit", "prior"], ["paths"], ["raw", "pit", "prior"], ["ordered"], ["info"], ["allpaths"],
+            ["raw", "pit", "prior"], ["models", None, True], ["models", 0, False], ["unit", units], ["instance", vec],
+            ["raw", "pit", "tuple"], ["raw", "pit", "param"], ["raw", "attr"], ["raw", "unique"], ["raw", "direct", "prior"],
+            ["raw", "direct", "float"], ["raw", "direct", "tuple"], ["raw", "direct", "pm"], ["raw", "mtt", None, True],
+            ["raw", "mtt", 1, False], ["raw", "pit", "prior"])]
+    build = [["new", "tuple", None, [["pos_0", P(5)], ["pos_1", ["c", 2]]], 0], ["new", "model", 2, [["pos", ["r", 0]], ["w", P(1)]], 0],
+             ["new", "model", 0, [["a", P(4)], ["b", P(0)]], 0], ["new", "model", 1, [["a", P(3)], ["b", P(0)], ["c", ["c", 7]]], 0],
+             ["new", "coll", None, [["m", ["r", 2]], ["n", ["r", 1]], ["k", ["r", 3]], ["q", P(2)]], 0]]
+    A = allq(4, [1, 2, 3, 4, 5, 6], [0, 1, 2, 3, 4, 2])
+    out.append(base(build + A + [["freeze", 4]] + A + A[::-1] + A[7:] + A[:7] + allq(2, [1, 2], [1, 3]) + allq(3, [1, 2], [4, 0]) +
+                    [["copy", 4]] + allq(5, [1, 2, 3, 4, 5, 6], [4, 3, 2, 1, 0, 2]) + A[::-1] + [["unfreeze", 4]] + A))
     return out
 
 
@@ -1181,7 +1243,7 @@ def coutcome(op, r):
     a, k = r["ok"], op[2][0]
     if k == "count":
         return "Ok (ANat %d)" % a
-    if k in ("paths", "ordered", "models"):
+    if k in ("paths", "ordered", "models", "raw"):
         return "Ok (AItems %s)" % citems(a)
     if k in ("instance", "unit"):
         return "Ok (AInst (%s))" % cinst(a)
@@ -1189,6 +1251,21 @@ def coutcome(op, r):
         return "Ok (AGroups %s)" % clist([clist([cpath(p) for p in g]) for g in a])
     ents = clist(["(%s, %s, %d%%nat)" % (cpath(p), "None" if c is None else "Some %d%%nat" % c, n) for p, c, n in a["b"]])
     return "Ok (AInfo %s %d %s)" % (citems(a["a"]), a["n"], ents)
+
+
+def craw(q):
+    what = q[1]
+    if what == "pit":
+        return {"prior": "(KPit SPrior 0)", "tuple": "(KPit STuple 0)", "param": "(KPit SParam 2)"}[q[2]]
+    if what == "attr":
+        return "(KAttr SPrior 0)"
+    if what == "unique":
+        return "KUnique"
+    if what == "direct":
+        return "(KDirect %s)" % {"prior": "DPrior", "float": "DFloat", "tuple": "DTuple", "pm": "DPriorModel"}[q[2]]
+    if what == "mtt":
+        return "(KMtt %s %s)" % ("None" if q[2] is None else "(Some %d)" % q[2], "true" if q[3] else "false")
+    raise ValueError(q)
 
 
 def cop(op):
@@ -1206,6 +1283,8 @@ def cop(op):
             qq = "(QUnit %s)" % clist(["(%d)%%Z" % x for x in q[1]])
         if q[0] == "allpaths":
             qq = "QAllPaths"
+        if q[0] == "raw":
+            qq = "(QRaw %s)" % craw(q)
         if q[0] == "models":
             qq = "(QModels %s %s)" % ("None" if q[1] is None else "(Some %d)" % q[1], "true" if q[2] else "false")
         return "OQuery %d %s" % (op[1], qq)
